@@ -17,6 +17,7 @@ import (
 	"verif.local/sim/rt"
 	"verif.local/sim/simnet"
 	"verif.local/sim/simtime"
+	"verif.local/sim/simunix"
 )
 
 // ---- client operation records -------------------------------------------------------
@@ -866,9 +867,14 @@ func (run *simRun) durableHolds(n *simNode, i, t uint64) (bool, string) {
 		return false, "image: " + err.Error()
 	}
 	run.tape.Frozen++
-	defer func() { run.tape.Frozen-- }()
+	simunix.RealUnmap = true
+	defer func() { run.tape.Frozen--; simunix.RealUnmap = false }()
 	st, err := openStorage(img, run.simOptions())
 	if err != nil {
+		if strings.Contains(err.Error(), "cannot allocate memory") || strings.Contains(err.Error(), "too many open files") {
+			run.infra = "oracle: re-opening a directory image: " + err.Error()
+			run.stop = true
+		}
 		return false, "open: " + err.Error()
 	}
 	defer st.log.Close()
@@ -1077,7 +1083,7 @@ func (l *ledgers) onTransferReturn(rec *transferRec, t Task, done bool) {
 func (run *simRun) installTracer() {
 	tracer.stateChanged = func(r *Raft) {
 		run.dbg("n%d state -> %c T%d", r.nid, r.state, r.term)
-		ni := run.raftOf[r]
+		ni := run.incOf(r)
 		if ni == nil || ni.dead {
 			return
 		}
@@ -1087,7 +1093,7 @@ func (run *simRun) installTracer() {
 		}
 	}
 	tracer.roundCompleted = func(r *Raft, id uint64, rd round) {
-		ni := run.raftOf[r]
+		ni := run.incOf(r)
 		if ni == nil || ni.dead {
 			return
 		}
@@ -1095,18 +1101,18 @@ func (run *simRun) installTracer() {
 		run.led.x.rounds[fmt.Sprintf("%d/%d/%d/%d", ni.node.id, ni.n, r.term, id)] = rd.LastIndex
 	}
 	tracer.configChanged = func(r *Raft) {
-		if ni := run.raftOf[r]; ni != nil && !ni.dead && ni.obs.started {
+		if ni := run.incOf(r); ni != nil && !ni.dead && ni.obs.started {
 			ni.obs.lastConfigChange = run.sim.Now
 		}
 	}
 	tracer.configReverted = func(r *Raft) {
-		if ni := run.raftOf[r]; ni != nil && !ni.dead && ni.obs.started {
+		if ni := run.incOf(r); ni != nil && !ni.dead && ni.obs.started {
 			ni.obs.lastConfigChange = run.sim.Now
 			run.reach("config_reverted")
 		}
 	}
 	tracer.electionStarted = func(r *Raft) {
-		ni := run.raftOf[r]
+		ni := run.incOf(r)
 		if ni == nil || ni.dead {
 			return
 		}
@@ -1123,7 +1129,23 @@ func (run *simRun) installTracer() {
 	}
 }
 
+// incOf maps a Raft to its incarnation for the ledger oracles; members of the
+// decoy cluster are not theirs.
+func (run *simRun) incOf(r *Raft) *nodeInc {
+	ni := run.raftOf[r]
+	if ni == nil || ni.node.decoy {
+		return nil
+	}
+	return ni
+}
+
 func (run *simRun) probe(name string, args []interface{}) {
+	if name == "Raft.onRequest:enter" {
+		run.led.checkRequestIdentity(args[0].(*Raft), args[1].(request), args[2].(*conn))
+		if run.stop {
+			return
+		}
+	}
 	switch name {
 	case "Raft.compactLog:exit":
 		run.reach("compaction")
@@ -1136,17 +1158,17 @@ func (run *simRun) probe(name string, args []interface{}) {
 		// flushed, the next configuration (if this commits one) is not yet appended
 		r := args[0].(*Raft)
 		idx := args[1].(uint64)
-		if ni := run.raftOf[r]; ni != nil && !ni.dead && r.state == Leader && run.sampleC06(idx) && idx > r.snaps.index {
+		if ni := run.incOf(r); ni != nil && !ni.dead && r.state == Leader && run.sampleC06(idx) && idx > r.snaps.index {
 			if t, err := r.storage.getEntryTerm(idx); err == nil {
 				run.led.checkDurableOnMajority(ni, idx, t, "commit index of leader")
 			}
 		}
 	case "Raft.onVoteRequest:enter":
-		if ni := run.raftOf[args[0].(*Raft)]; ni != nil && !ni.dead && ni.obs.started {
+		if ni := run.incOf(args[0].(*Raft)); ni != nil && !ni.dead && ni.obs.started {
 			run.led.onVoteEnterStability(ni, args[1].(*voteReq))
 		}
 	case "Raft.onVoteRequest:exit":
-		if ni := run.raftOf[args[0].(*Raft)]; ni != nil && !ni.dead && ni.obs.started {
+		if ni := run.incOf(args[0].(*Raft)); ni != nil && !ni.dead && ni.obs.started {
 			res, _ := args[2].(rpcResult)
 			run.led.onVoteExit(ni, args[1].(*voteReq), res)
 			if !run.stop {
@@ -1154,7 +1176,7 @@ func (run *simRun) probe(name string, args []interface{}) {
 			}
 		}
 	case "Raft.onTimeoutNowRequest:exit":
-		if ni := run.raftOf[args[0].(*Raft)]; ni != nil && !ni.dead && ni.obs.started {
+		if ni := run.incOf(args[0].(*Raft)); ni != nil && !ni.dead && ni.obs.started {
 			res, _ := args[1].(rpcResult)
 			run.led.onTimeoutNowExit(ni, res)
 		}
@@ -1168,17 +1190,17 @@ func (run *simRun) probe(name string, args []interface{}) {
 		}
 	case "leader.doChangeConfig:enter":
 		ld := args[0].(*leader)
-		if ni := run.raftOf[ld.Raft]; ni != nil && !ni.dead && ni.obs.started {
+		if ni := run.incOf(ld.Raft); ni != nil && !ni.dead && ni.obs.started {
 			run.led.onDoChangeConfig(ni, ld, args[2].(Config))
 		}
 	case "leader.onTransfer:enter":
 		ld := args[0].(*leader)
-		if ni := run.raftOf[ld.Raft]; ni != nil && !ni.dead && ni.obs.started {
+		if ni := run.incOf(ld.Raft); ni != nil && !ni.dead && ni.obs.started {
 			run.led.onTransferEnter(ni, args[1].(transferLdr))
 		}
 	case "leader.onTransfer:exit":
 		ld := args[0].(*leader)
-		if ni := run.raftOf[ld.Raft]; ni != nil && !ni.dead && ni.obs.started {
+		if ni := run.incOf(ld.Raft); ni != nil && !ni.dead && ni.obs.started {
 			run.led.onTransferExit(ni, ld, args[1].(transferLdr))
 		}
 	case "storage.removeGTE:enter":
@@ -1194,12 +1216,12 @@ func (run *simRun) probe(name string, args []interface{}) {
 			}
 		}
 	case "Raft.onAppendEntriesRequest:enter":
-		if ni := run.raftOf[args[0].(*Raft)]; ni != nil && !ni.dead {
+		if ni := run.incOf(args[0].(*Raft)); ni != nil && !ni.dead {
 			req := args[1].(*appendReq)
 			ni.pendPrev, ni.pendN = req.prevLogIndex, req.numEntries
 		}
 	case "Raft.onAppendEntriesRequest:exit":
-		ni := run.raftOf[args[0].(*Raft)]
+		ni := run.incOf(args[0].(*Raft))
 		if ni == nil || ni.dead {
 			break
 		}
@@ -1478,6 +1500,10 @@ func (run *simRun) converged() (bool, string) {
 }
 
 func (run *simRun) finalChecks() {
+	run.led.checkConnIdentities()
+	if run.stop {
+		return
+	}
 	run.led.checkHistory()
 	if !run.stop {
 		run.led.checkTasksAtEnd()
@@ -1528,6 +1554,7 @@ func (run *simRun) nontrivial() map[string]bool {
 		}
 	}
 	m["C17"] = (nfaults >= 3 && (run.phase == "done" || run.phase == "shutdown")) || re["stability_clause_evaluated"] > 0
+	m["C20"] = re["handshake_at_wrong_node"] > 0 || (fa["misroute"] > 0 && re["request_identity_checked"] > 0)
 	m["C19"] = re["status_report"] >= 20 && re["status_report_role_change"] > 0 && (re["install_snapshot"] > 0 || re["truncate_conflict"] > 0 || re["config_reverted"] > 0)
 	return m
 }
